@@ -17,7 +17,7 @@ Open Scope Z_scope.
 Definition C28_statement : Prop :=
   forall e t require col_values o, upsert e t require col_values o = ref_upsert e t require col_values o.
 
-(* The unchanged code violates it in two situations; the faithful model does too. *)
+(* The code violates it in one situation; the faithful model does too. *)
 Definition ex_schema :=
   [{| c_id := 1; c_data := true; c_default := VText [] |}; {| c_id := 3; c_data := true; c_default := VText [] |}].
 Definition ex_env := {| e_schema := ex_schema; e_conv := fun _ v => v; e_key := fun _ v => Some v |}.
@@ -36,17 +36,17 @@ Theorem C28_refuted_stale_update :
     = Ok (ex_table1, {| r_record_ids := [[1]; [1]]; r_add_ids := []; r_update_ids := [[1]; [1]] |}).
 Proof. split; vm_compute; reflexivity. Qed.
 
-(* (2) Two input rows each ask for a new record with row id 5: the reference cannot add the second one and
-   rejects; the code reports two added records [5; 5] and the table holds one.  A required row id 0 is reported
-   as added and nothing is added. *)
-Theorem C28_refuted_new_id :
-  upsert ex_env [] [(0, [VInt 5; VInt 5]); (1, [VText [120]; VText [121]])] [] ex_default
-    = Ok ([(5, [(1, VText [121]); (3, VText [])])],
-          {| r_record_ids := [[5]; [5]]; r_add_ids := [5; 5]; r_update_ids := [] |})
+(* Regression (the second deviation found here was repaired in /repo by commit e346da4): two input rows that ask
+   for a new record under the same row id, or a required row id 0, are now rejected by the code like by the
+   reference, and nothing is added. *)
+Example C28_new_id_regression :
+  upsert ex_env [] [(0, [VInt 5; VInt 5]); (1, [VText [120]; VText [121]])] [] ex_default = Err EEnv
   /\ ref_upsert ex_env [] [(0, [VInt 5; VInt 5]); (1, [VText [120]; VText [121]])] [] ex_default = Err EEnv
-  /\ upsert ex_env ex_table1 [(0, [VInt 0])] [(3, [VText [112]])] ex_default
-    = Ok (ex_table1, {| r_record_ids := [[0]]; r_add_ids := [0]; r_update_ids := [] |})
-  /\ ref_upsert ex_env ex_table1 [(0, [VInt 0])] [(3, [VText [112]])] ex_default = Err EEnv.
+  /\ upsert ex_env ex_table1 [(0, [VInt 0])] [(3, [VText [112]])] ex_default = Err EEnv
+  /\ ref_upsert ex_env ex_table1 [(0, [VInt 0])] [(3, [VText [112]])] ex_default = Err EEnv
+  /\ upsert ex_env ex_table1 [(0, [VInt (-1); VInt 2]); (1, [VText [120]; VText [121]])] [] ex_default
+     = Ok (ex_table1 ++ [(3, [(1, VText [120]); (3, VText [])]); (2, [(1, VText [121]); (3, VText [])])],
+           {| r_record_ids := [[3]; [2]]; r_add_ids := [3; 2]; r_update_ids := [] |}).
 Proof. repeat split; vm_compute; reflexivity. Qed.
 
 Theorem C28_refuted : ~ C28_statement.
@@ -55,17 +55,15 @@ Proof.
   destruct C28_refuted_stale_update as [E1 E2]. rewrite E1, E2 in H. discriminate H.
 Qed.
 
-(* Everywhere else the property holds.  The two hypotheses are stated on the reference's own per-row decisions:
+(* Everywhere else the property holds.  The hypothesis is stated on the reference's own per-row decisions:
    no_stale_update: whenever some input row really changes a record, the last input row updating that record
-                    changes it too (in particular: no record is updated by two input rows);
-   new_ids_clean:   the ids the new records get are positive and pairwise different. *)
+                    changes it too (in particular: no record is updated by two input rows). *)
 Theorem upsert_refines_reference_partial : forall e t require col_values o,
   no_stale_update e t require col_values o = true ->
-  new_ids_clean e t require col_values o = true ->
   upsert e t require col_values o = ref_upsert e t require col_values o.
 Proof. exact upsert_eq. Qed.
 
-(* the first hypothesis holds when no record is updated by two input rows *)
+(* the hypothesis holds when no record is updated by two input rows *)
 Theorem no_stale_when_updates_distinct : forall e t (us : list upd),
   NoDup (map fst us) -> stale_free e t us = true.
 Proof. exact stale_free_distinct. Qed.
@@ -86,21 +84,19 @@ Theorem upsert_any_rejection_leaves_table : forall e t require col_values o x,
   upsert e t require col_values o = Err x -> table_after t (upsert e t require col_values o) = t.
 Proof. exact err_unchanged. Qed.
 
-(* AddOrUpdateRecord: with one input row the first hypothesis always holds. *)
-Theorem upsert_single_refines_reference_partial : forall e t require col_values o,
-  new_ids_clean e t (single_kv require) (single_kv col_values) o = true ->
+(* AddOrUpdateRecord: with one input row the hypothesis always holds; full strength. *)
+Theorem upsert_single_refines_reference : forall e t require col_values o,
   upsert_single e t require col_values o = ref_single e t require col_values o.
 Proof. exact single_eq. Qed.
 
 (* Non-vacuity: three input rows on a table with a duplicate key: "a" matches records 1 and 2 (on_many = all),
-   "z" matches nothing and is added as record 5, "b" matches record 4; both hypotheses hold. *)
+   "z" matches nothing and is added as record 5, "b" matches record 4; the hypothesis holds. *)
 Definition ex_table2 : table :=
   [(1, [(1, VText [97]); (3, VText [99])]); (2, [(1, VText [97]); (3, VText [100])]); (4, [(1, VText [98]); (3, VText [99])])].
 Example C28_nonvacuous :
   let require := [(1, [VText [97]; VText [122]; VText [98]])] in
   let col_values := [(3, [VText [120]; VText [121]; VText [119]])] in
   no_stale_update ex_env ex_table2 require col_values ex_all = true /\
-  new_ids_clean ex_env ex_table2 require col_values ex_all = true /\
   upsert ex_env ex_table2 require col_values ex_all
   = Ok ([(1, [(1, VText [97]); (3, VText [120])]); (2, [(1, VText [97]); (3, VText [120])]);
          (4, [(1, VText [98]); (3, VText [119])]); (5, [(1, VText [122]); (3, VText [121])])],
